@@ -90,7 +90,7 @@ PROPS = {
         'level_note': 'The first statement of pong_never_dropped was proved false (a user pong replaces the pending one) and corrected.',
     },
     'C02': {
-        'modules': ['C02', 'TieWrite', 'TieRead', 'TieRun', 'TieCodec', 'TieColl'],
+        'modules': ['C02', 'TieWrite', 'TieRead', 'TieRun', 'TieCodec', 'TieColl', 'TieInc'],
         'families': [('ep:codec', 2500, 80000), ('ep:utf8', 500, 10000), ('ep:utf8cuts', 1, 1), ('ep:limits', 500, 10000)],
         'rule': 'well-formed frame sequences with arbitrary fragmentation and interleaved control frames, and the same with a single rule '
                 'violation injected (RSV, reserved opcodes, fragmented / oversized control, stray continuation, nested data frame, wrong '
@@ -203,7 +203,7 @@ PROPS = {
         'level_note': 'Unbounded histories by induction; tie to code by correspondence (wire bytes compared byte for byte, masks fixed by the hook).',
     },
     'C06': {
-        'modules': ['C06', 'C06Global', 'TieWrite', 'TieRead', 'TieRun', 'TieCodec', 'TieColl', 'TieConfig', 'TieFsock', 'FsockProps'],
+        'modules': ['C06', 'C06Global', 'TieWrite', 'TieRead', 'TieRun', 'TieCodec', 'TieColl', 'TieConfig', 'TieFsock', 'FsockProps', 'TieInc'],
         'families': [('fs', 800, 20000), ('corpus:limits', 0, 0), ('ep:limits', 1500, 40000), ('ep:codec', 500, 10000), ('ep:cfglive', 400, 8000)],
         'rule': 'frame/fragment size patterns around the configured limits (limit-1, limit, limit+1; limits 0,1,5,10,125,126,300), '
                 'headers announcing up to 2^64-1 bytes with nothing following, every read-buffer size; read-only cases are also '
@@ -261,7 +261,7 @@ PROPS = {
         'level_note': 'Codec- and call-level theorems for every state; the history-level bound is the `bound` field of the C03 invariant.',
     },
     'C08': {
-        'modules': ['C08', 'TieWrite', 'TieRead', 'TieRun', 'TieColl'],
+        'modules': ['C08', 'TieWrite', 'TieRead', 'TieRun', 'TieColl', 'TieInc'],
         'families': [('ep:utf8cuts', 1, 1), ('pure:utf8', 500, 20000), ('pure:utf8c', 8, 200), ('ep:utf8', 1500, 40000), ('corpus:utf8', 0, 0)],
         'rule': 'from_utf8 / utf8::decode on all 1- and 2-byte strings, 3-/4-byte strings around every table boundary and structured '
                 'valid/invalid/truncated strings; Incomplete::try_complete on every incomplete-prefix shape x next bytes; text messages '
